@@ -66,7 +66,7 @@ func TestC18(t *testing.T) {
 func TestC20(t *testing.T) {
 	evid.Run(t, evid.Prop[ConcCase]{
 		ID:   "C20",
-		Rule: "2..8 goroutines, each repeating (20..400 rounds) its own list of 1..6 calls of the pure API (Rate.Recalculate/Optimize/Flatten/IsValid, Fair/Rate dividers of both versions, IsNonFatalConfig/IsSuitableConfig/PickUp* of both versions) with arguments that no other goroutine touches, released together; oracle = race detector plus equality with the results of the same calls made one after another; non-trivial = at least 2 goroutines with at least 4 calls in total; distinct = distinct case JSON",
+		Rule: "2..8 goroutines, each repeating (20..400 rounds) its own list of 1..6 calls of the pure API (Rate.Recalculate/Optimize/Flatten/IsValid, Fair/Rate dividers of both versions, IsNonFatalConfig/IsSuitableConfig/PickUp* of both versions) with maps of their own and priority slices that are either private or (a third of the cases) shared read-only by all goroutines, released together; oracle = race detector plus equality with the results of the same calls made one after another; non-trivial = at least 2 goroutines with at least 4 calls in total; distinct = distinct case JSON",
 		Gen:  GenConc,
 		Run: func(c ConcCase) evid.Outcome {
 			n := 0
